@@ -140,6 +140,7 @@ type Damage struct {
 
 // Case is one complete, self-contained simulation input: execution is a pure function of it and of the code.
 type Case struct {
+	StdIO    bool           `json:"stdio,omitempty"`    // every Open of the run uses standard I/O (resource reasons, see gen.go withKill)
 	ZeroTail bool           `json:"zerotail,omitempty"` // values may end in zero bytes; every Open of the run uses standard I/O (the model of an open mapped file cannot see trailing zeros)
 	Prop     string         `json:"prop"`
 	Arm      string         `json:"arm"`
